@@ -14,6 +14,20 @@ def segJson : Seg → Json
   | .field n c s => Json.arr #[Json.str "field", Json.str (String.ofList n),
       (match c with | none => Json.null | some ch => Json.str (String.ofList [ch])), Json.str (String.ofList s)]
 
+def renderResp (ev : String → Extracted.Expr.Outcome) (tpl : String) (collect : Bool) : Json :=
+  let eff := logAction ev tpl "<tp>" "<ctx>" collect
+  let rendered : Json := match render ev tpl with
+    | .ok r => Json.mkObj [("msg", Json.str r.msg), ("watches", strs r.watches)]
+    | .error e => Json.mkObj [("err", Json.str (errName e))]
+  Json.mkObj [
+    ("rendered", rendered),
+    ("logger", Json.arr (eff.logger.map (fun call =>
+        Json.arr (call.map (fun (a, v) => Json.arr #[Json.str (argName a), Json.str v])).toArray)).toArray),
+    ("snapLog", optStrJ eff.snapLog), ("snapWatches", strs eff.snapWatches), ("snapshots", toJson eff.snapshots),
+    ("defaultLine", match render ev tpl with
+      | .ok r => Json.str (defaultLogLine r.msg "<tp>" "<ctx>")
+      | .error _ => Json.null)]
+
 def handle (j : Json) : Except String Json := do
   let op ← getStr j "op"
   let tpl ← getStr j "tpl"
@@ -24,19 +38,14 @@ def handle (j : Json) : Except String Json := do
     | .error e => pure (Json.mkObj [("err", Json.str (errName e))])
   | "render" =>
     let ev ← parseOracle j "oracle"
+    pure (renderResp ev tpl (← getBool j "collect"))
+  | "renderN" =>
+    -- several hits of one tracepoint, each with its own frame: no state is shared between them
     let collect ← getBool j "collect"
-    let eff := logAction ev tpl "<tp>" "<ctx>" collect
-    let rendered : Json := match render ev tpl with
-      | .ok r => Json.mkObj [("msg", Json.str r.msg), ("watches", strs r.watches)]
-      | .error e => Json.mkObj [("err", Json.str (errName e))]
-    pure (Json.mkObj [
-      ("rendered", rendered),
-      ("logger", Json.arr (eff.logger.map (fun call =>
-          Json.arr (call.map (fun (a, v) => Json.arr #[Json.str (argName a), Json.str v])).toArray)).toArray),
-      ("snapLog", optStrJ eff.snapLog), ("snapWatches", strs eff.snapWatches), ("snapshots", toJson eff.snapshots),
-      ("defaultLine", match render ev tpl with
-        | .ok r => Json.str (defaultLogLine r.msg "<tp>" "<ctx>")
-        | .error _ => Json.null)])
+    let rs ← (← getArr j "threads").toList.mapM (fun t => do
+      let ev ← parseOracle t "oracle"
+      pure (renderResp ev tpl collect))
+    pure (Json.mkObj [("threads", Json.arr rs.toArray)])
   | _ => throw s!"unknown op {op}"
 
 def main : IO Unit := serve handle
